@@ -37,6 +37,18 @@ import (
 )
 
 const protoName api.ProtocolName = "vhscript"
+
+// the HTTP flavour of the scripted protocol: status mapping = the REAL protocol.GetStatusCodeMapping (HTTP/1.1 and HTTP/2 register
+// exactly this one): it ignores the headers and reads the x-mosn-status variable of the request context, which the client stream
+// sets when a response arrives (stream/http/stream.go handleResponse, stream/http2/stream.go handleFrame)
+const protoNameH api.ProtocolName = "vhscripth"
+
+func (sp *Spec) proto() api.ProtocolName {
+	if sp.Flavour == "http" {
+		return protoNameH
+	}
+	return protoName
+}
 const filterType = "vhscript_filter"
 
 type histKeyT struct{}
@@ -115,12 +127,18 @@ func (scriptMapping) MappingHeaderStatusCode(ctx context.Context, headers api.He
 }
 
 type scriptPool struct {
-	host types.Host
+	host  types.Host
+	proto api.ProtocolName
 }
 
-func newScriptPool(ctx context.Context, host types.Host) types.ConnectionPool { return &scriptPool{host: host} }
+func newScriptPool(ctx context.Context, host types.Host) types.ConnectionPool {
+	return &scriptPool{host: host, proto: protoName}
+}
+func newScriptPoolH(ctx context.Context, host types.Host) types.ConnectionPool {
+	return &scriptPool{host: host, proto: protoNameH}
+}
 
-func (p *scriptPool) Protocol() api.ProtocolName { return protoName }
+func (p *scriptPool) Protocol() api.ProtocolName { return p.proto }
 func (p *scriptPool) CheckAndInit(ctx context.Context) bool {
 	if h := histOf(ctx); h != nil {
 		h.mu.Lock()
@@ -263,6 +281,10 @@ func (u *upStream) respond(status int, data, trailers bool) bool {
 		t = protocol.CommonHeader(map[string]string{"x-t": "1"})
 	}
 	u.release() // the response is complete: the client stream is done
+	if u.h.spec.Flavour == "http" {
+		// as the HTTP client streams do: the response status goes into the request context
+		_ = variable.SetString(u.ctx, types.VarHeaderStatus, strconv.Itoa(status))
+	}
 	u.receiver.OnReceive(u.ctx, hdr, d, t)
 	return true
 }
@@ -386,11 +408,12 @@ func (d *downSender) clientReset(reason types.StreamResetReason) { d.BaseStream.
 
 // server stream connection: the harness is the codec, so Dispatch is never used
 type scriptServerConn struct {
-	cb types.ServerStreamConnectionEventListener
+	cb    types.ServerStreamConnectionEventListener
+	proto api.ProtocolName
 }
 
 func (s *scriptServerConn) Dispatch(buffer.IoBuffer)        {}
-func (s *scriptServerConn) Protocol() api.ProtocolName      { return protoName }
+func (s *scriptServerConn) Protocol() api.ProtocolName      { return s.proto }
 func (s *scriptServerConn) EnableWorkerPool() bool          { return false } // worker = the goroutine calling OnReceive
 func (s *scriptServerConn) ActiveStreamsNum() int           { return 0 }
 func (s *scriptServerConn) GoAway()                         {}
@@ -405,7 +428,10 @@ func (scriptFactory) CreateClientStream(context.Context, types.ClientConnection,
 	return nil
 }
 func (scriptFactory) CreateServerStream(ctx context.Context, c api.Connection, cb types.ServerStreamConnectionEventListener) types.ServerStreamConnection {
-	sc := &scriptServerConn{cb: cb}
+	sc := &scriptServerConn{cb: cb, proto: protoName}
+	if h := histOf(ctx); h != nil {
+		sc.proto = h.spec.proto()
+	}
 	if fc, ok := c.(*fakeConn); ok {
 		fc.ssc = sc
 	}
@@ -606,6 +632,9 @@ func initEnv() {
 		if err := protocol.RegisterProtocol(protoName, newScriptPool, scriptFactory{}, scriptMapping{}); err != nil {
 			panic(err)
 		}
+		if err := protocol.RegisterProtocol(protoNameH, newScriptPoolH, scriptFactory{}, protocol.GetStatusCodeMapping{}); err != nil {
+			panic(err)
+		}
 		api.RegisterStream(filterType, func(conf map[string]interface{}) (api.StreamFilterChainFactory, error) {
 			id, _ := conf["hist"].(float64)
 			if s, ok := conf["hist"].(int); ok {
@@ -694,7 +723,7 @@ func newProxyConn(h *hist, listener, rname string) (api.ReadFilter, *fakeConn, c
 	_ = variable.Set(ctx, types.VariableAccessLogs, []api.AccessLog{})
 	_ = variable.Set(ctx, types.VariableListenerName, listener)
 	nf, err := api.CreateNetworkFilterChainFactory(v2.DEFAULT_NETWORK_FILTER, map[string]interface{}{
-		"downstream_protocol": string(protoName), "upstream_protocol": string(protoName), "router_config_name": rname,
+		"downstream_protocol": string(h.spec.proto()), "upstream_protocol": string(h.spec.proto()), "router_config_name": rname,
 	})
 	if err != nil {
 		return nil, nil, nil, err
